@@ -19,7 +19,8 @@
    (b) distributional half, proved for the IDEAL real-valued model (models/SampleProb.v,
        second part of this file, Coq Reals + Coquelicot): u_0..u_(n-1) independent uniform
        on the unit interval, exact keys ln u / w: c20_k1_probability and its companions;
-       c20_k1_returns_winner ties the event to the executable model of (a);
+       c20_k1_returns_winner ties the event to the executable model of (a); the first two
+       picks of sampling without replacement (sampleNum = 2): c20_k2_probability;
    (c) PARTIAL: that the float64 keys computed with math.Log from math/rand draws behave
        like the ideal ones is NOT proved (no probability theory over IEEE floats); it is
        a fixed-seed frequency TEST in vlib/c20.py (stream "frequency-test-k1"). *)
@@ -217,7 +218,7 @@ Qed.
 Require Import Reals.
 From Coquelicot Require Import Coquelicot.
 Require Import List Permutation.   (* after Coquelicot: List.Forall, not AutoDerive's *)
-From Got Require Import SampleProb SampleProbProofs SampleProbLink.
+From Got Require Import SampleProb SampleProbProofs SampleProbPair SampleProbLink.
 Local Open Scope R_scope.
 
 (* conditional on u_i = u, item j loses exactly when its draw v is below u^(w_j/w_i);
@@ -351,7 +352,61 @@ Theorem c20_k1_returned_is_winner :
 Proof. exact sp_k1_returned_is_winner. Qed.
 Print Assumptions c20_k1_returned_is_winner.
 
-(* non-vacuity: weights 1, 2, 3: the middle item wins with probability 1/3 *)
+(* ---- sampleNum = 2, "without replacement": P(i has the largest key and j the second
+   largest) = w_i/W * w_j/(W - w_i): i is picked with probability w_i/W, then j among the
+   remaining items with probability proportional to its weight.  As the double integral
+   (the other items integrated out as the product of their interval lengths) ... *)
+Theorem c20_k2_probability :
+  forall ws i j, sp_pos ws -> (i < length ws)%nat -> (j < length ws)%nat -> j <> i ->
+    sp_pair_prob ws i j = nth i ws 0 / sp_sum ws * (nth j ws 0 / (sp_sum ws - nth i ws 0)).
+Proof. exact sp_k2_probability. Qed.
+Print Assumptions c20_k2_probability.
+
+(* ... and as the iterated integral of the indicator of the event over the unit cube
+   (u_i outermost, then u_j, then the other items): exists, has that value, is unique *)
+Theorem c20_k2_indicator_integral :
+  forall ws i j, sp_pos ws -> (i < length ws)%nat -> (j < length ws)%nat -> j <> i ->
+    sp_is_pair_prob_ind ws i j (nth i ws 0 / sp_sum ws * (nth j ws 0 / (sp_sum ws - nth i ws 0))) /\
+    (forall p, sp_is_pair_prob_ind ws i j p ->
+               p = nth i ws 0 / sp_sum ws * (nth j ws 0 / (sp_sum ws - nth i ws 0))).
+Proof.
+  exact (fun ws i j Hp Hi Hj Hne =>
+           conj (sp_k2_indicator_integral ws i j Hp Hi Hj Hne)
+                (fun p => sp_k2_indicator_integral_unique ws i j p Hp Hi Hj Hne)).
+Qed.
+Print Assumptions c20_k2_indicator_integral.
+
+Theorem c20_k2_indicator_is_indicator :
+  forall wi wj wo u v xs, length xs = length wo ->
+    (sp_pair_ind wi wj wo (u :: v :: xs) = 1 <->
+     sp_key v wj < sp_key u wi /\
+     forall l, (l < length wo)%nat -> sp_key (nth l xs 0) (nth l wo 0) < sp_key v wj) /\
+    (sp_pair_ind wi wj wo (u :: v :: xs) = 1 \/ sp_pair_ind wi wj wo (u :: v :: xs) = 0).
+Proof. exact sp_pair_ind_spec. Qed.
+Print Assumptions c20_k2_indicator_is_indicator.
+
+(* summing the pair probabilities over the second pick gives back P(i first) *)
+Theorem c20_k2_marginal :
+  forall ws i, sp_pos ws -> (i < length ws)%nat -> (2 <= length ws)%nat ->
+    sp_sum (map (fun wj => nth i ws 0 / sp_sum ws * (wj / (sp_sum ws - nth i ws 0)))
+                (sp_others ws i))
+    = nth i ws 0 / sp_sum ws.
+Proof. exact sp_k2_marginal. Qed.
+Print Assumptions c20_k2_marginal.
+
+(* tie to the executable model: on that event the call with sampleNum = 2 returns
+   exactly the indices i and j *)
+Theorem c20_k2_returns_top_pair :
+  forall (key : nat -> Z) (us ws : list R) (i j : nat),
+    sp_ranks_agree key us ws -> (i < length ws)%nat -> (j < length ws)%nat -> i <> j ->
+    sp_wins2 us ws i j ->
+    exists r, smp_sample SmpEmpty 2 (Z.of_nat (length ws)) key = HpOk r /\
+              Permutation r (Z.of_nat i :: Z.of_nat j :: nil).
+Proof. exact sp_k2_returns_top_pair. Qed.
+Print Assumptions c20_k2_returns_top_pair.
+
+(* non-vacuity: weights 1, 2, 3: the middle item wins with probability 1/3; it is first
+   and the last item second with probability 2/6 * 3/4 = 1/4 *)
 Example c20_prob_nonvacuous :
-  sp_pos [1; 2; 3] /\ sp_win_prob [1; 2; 3] 1 = 1 / 3.
-Proof. exact sp_example. Qed.
+  sp_pos [1; 2; 3] /\ sp_win_prob [1; 2; 3] 1 = 1 / 3 /\ sp_pair_prob [1; 2; 3] 1 2 = 1 / 4.
+Proof. exact sp_example2. Qed.
